@@ -197,6 +197,8 @@ class Interp:
                 return cls(*args, **kwargs)
             except Exception as ex:
                 raise PyRaise(ex, implicit=True)
+        if cls is object and not args and not kwargs:
+            return object()
         if cls in (int, float, str, bytes, bytearray, bool, list, tuple, dict, set, frozenset, range, enumerate,
                    zip, reversed, type, object, super):
             raise Undecided(f"builtin type {cls.__name__} without model for these arguments")
